@@ -31,7 +31,14 @@ type entryProg struct {
 	static  int  // option bits that must all be on for the program to be statically valid
 	runtime int  // option bits that must be on for the run to succeed (else a dynamic error)
 	noREPL  bool // the REPL applies its own top-level rules
+	hostSet bool // the application predeclares its own "set": using it needs no option
 }
+
+// hostPredeclared: an application that provides a value named set (shadowing the
+// universal, option-gated one).
+var hostPredeclared = starlark.StringDict{"set": starlark.NewBuiltin("set", func(_ *starlark.Thread, _ *starlark.Builtin, args starlark.Tuple, _ []starlark.Tuple) (starlark.Value, error) {
+	return starlark.MakeInt(len(args)), nil
+})}
 
 var entryProgs = []entryProg{
 	{name: "set-expression", src: "set([1, 2])", expr: true, static: bSet},
@@ -47,13 +54,15 @@ var entryProgs = []entryProg{
 	{name: "recursive-def", src: "def f(n):\n    return n and f(n - 1)\nx = f(2)\n", runtime: bRecursion},
 	{name: "mutual-recursion-through-sorted", src: "def f(n):\n    return n and sorted([n - 1], key = g)\ndef g(n):\n    return f(n)\nx = f(2)\n", runtime: bRecursion},
 	{name: "plain-file", src: "x = [1, 2][0]\ndef f():\n    return x\ny = f()\n"},
+	{name: "host-set-used-twice-in-an-expression", src: "[set([1]), set([2]), (lambda: set([3]))()]", expr: true, hostSet: true},
+	{name: "host-set-used-at-top-level-and-in-two-functions", src: "def f():\n    return set([1])\ndef g():\n    return set([2])\nx = (f(), g(), set([3]))\ny = set\n", hostSet: true},
 }
 
 type entryPoint struct {
 	name string
 	expr bool
 	repl bool
-	run  func(opts *syntax.FileOptions, src string) (static bool, err error)
+	run  func(opts *syntax.FileOptions, src string, pre starlark.StringDict) (static bool, err error)
 }
 
 func isStatic(err error) bool {
@@ -65,56 +74,60 @@ func isStatic(err error) bool {
 }
 
 var entryPoints = []entryPoint{
-	{name: "ExecFileOptions", run: func(o *syntax.FileOptions, src string) (bool, error) {
-		_, err := starlark.ExecFileOptions(o, &starlark.Thread{}, "e.star", src, nil)
+	{name: "ExecFileOptions", run: func(o *syntax.FileOptions, src string, pre starlark.StringDict) (bool, error) {
+		_, err := starlark.ExecFileOptions(o, &starlark.Thread{}, "e.star", src, pre)
 		return isStatic(err), err
 	}},
-	{name: "SourceProgramOptions+Init", run: func(o *syntax.FileOptions, src string) (bool, error) {
-		_, p, err := starlark.SourceProgramOptions(o, "e.star", src, func(string) bool { return false })
+	{name: "SourceProgramOptions+Init", run: func(o *syntax.FileOptions, src string, pre starlark.StringDict) (bool, error) {
+		_, p, err := starlark.SourceProgramOptions(o, "e.star", src, pre.Has)
 		if err != nil {
 			return isStatic(err), err
 		}
-		_, err = p.Init(&starlark.Thread{}, nil)
+		_, err = p.Init(&starlark.Thread{}, pre)
 		return false, err
 	}},
-	{name: "Parse+FileProgram+Init", run: func(o *syntax.FileOptions, src string) (bool, error) {
+	{name: "Parse+FileProgram+Init", run: func(o *syntax.FileOptions, src string, pre starlark.StringDict) (bool, error) {
 		f, err := o.Parse("e.star", src, 0)
 		if err != nil {
 			return true, err
 		}
-		p, err := starlark.FileProgram(f, func(string) bool { return false })
+		p, err := starlark.FileProgram(f, pre.Has)
 		if err != nil {
 			return isStatic(err), err
 		}
-		_, err = p.Init(&starlark.Thread{}, nil)
+		_, err = p.Init(&starlark.Thread{}, pre)
 		return false, err
 	}},
-	{name: "ExecREPLChunk", repl: true, run: func(o *syntax.FileOptions, src string) (bool, error) {
+	{name: "ExecREPLChunk", repl: true, run: func(o *syntax.FileOptions, src string, pre starlark.StringDict) (bool, error) {
 		f, err := o.Parse("e.star", src, 0)
 		if err != nil {
 			return true, err
 		}
-		err = starlark.ExecREPLChunk(f, &starlark.Thread{}, starlark.StringDict{})
+		g := starlark.StringDict{}
+		for k, v := range pre {
+			g[k] = v
+		}
+		err = starlark.ExecREPLChunk(f, &starlark.Thread{}, g)
 		return isStatic(err), err
 	}},
-	{name: "EvalOptions", expr: true, run: func(o *syntax.FileOptions, src string) (bool, error) {
-		_, err := starlark.EvalOptions(o, &starlark.Thread{}, "e.star", src, nil)
+	{name: "EvalOptions", expr: true, run: func(o *syntax.FileOptions, src string, pre starlark.StringDict) (bool, error) {
+		_, err := starlark.EvalOptions(o, &starlark.Thread{}, "e.star", src, pre)
 		return isStatic(err), err
 	}},
-	{name: "ExprFuncOptions+Call", expr: true, run: func(o *syntax.FileOptions, src string) (bool, error) {
-		fn, err := starlark.ExprFuncOptions(o, "e.star", src, nil)
+	{name: "ExprFuncOptions+Call", expr: true, run: func(o *syntax.FileOptions, src string, pre starlark.StringDict) (bool, error) {
+		fn, err := starlark.ExprFuncOptions(o, "e.star", src, pre)
 		if err != nil {
 			return isStatic(err), err
 		}
 		_, err = starlark.Call(&starlark.Thread{}, fn, nil, nil)
 		return false, err
 	}},
-	{name: "ParseExpr+EvalExprOptions", expr: true, run: func(o *syntax.FileOptions, src string) (bool, error) {
+	{name: "ParseExpr+EvalExprOptions", expr: true, run: func(o *syntax.FileOptions, src string, pre starlark.StringDict) (bool, error) {
 		e, err := o.ParseExpr("e.star", src, 0)
 		if err != nil {
 			return true, err
 		}
-		_, err = starlark.EvalExprOptions(o, &starlark.Thread{}, e, nil)
+		_, err = starlark.EvalExprOptions(o, &starlark.Thread{}, e, pre)
 		return isStatic(err), err
 	}},
 }
@@ -151,7 +164,11 @@ func checkEntry(ec entryCase) (what string) {
 				err = fmt.Errorf("PANIC: %v", r)
 			}
 		}()
-		static, err = ep.run(fileOptions(o), p.src)
+		var pre starlark.StringDict
+		if p.hostSet {
+			pre = hostPredeclared
+		}
+		static, err = ep.run(fileOptions(o), p.src, pre)
 	}()
 	wantStatic := ec.Opts&p.static != p.static
 	wantDynamic := !wantStatic && ec.Opts&p.runtime != p.runtime
